@@ -1017,8 +1017,8 @@ def random_exec(ctx: Ctx, loop: steploop.StepLoop, rng: Any) -> dict:
                         acts += [("all", n)] * 3
                 elif n == "v" and expect100 and "cont" not in rq.fed_parts:
                     acts += [("cont", n)] * 2
-                elif n == "v" and early and pc.tr.write_paused and rq.fed < 120:
-                    acts += [("feed", n)]
+                elif n == "v" and early and pc.tr.write_paused and rq.fed < 100:
+                    acts += [("earlyfeed", n)]
                 if n == "v" and pc.tr.write_paused:
                     acts += [("resume", n)]
                 if n == "v" and allow_fault and rng.random() < 0.1:
@@ -1046,6 +1046,10 @@ def random_exec(ctx: Ctx, loop: steploop.StepLoop, rng: Any) -> dict:
             x.sock_done(n)
         elif a == "feed":
             x.deliver_n(n, rng.choice([1, 2, 3, 5, 9, 17, 40, 400]))
+        elif a == "earlyfeed":
+            # early response while the upload is blocked: never the complete response (whether a
+            # connection with a half-sent request may be reused is C06's question, not C18's)
+            x.deliver_n(n, min(rng.choice([1, 3, 9, 17, 40]), 100 - x.reqs[n].fed))
         elif a == "all":
             x.deliver(n, "all")
         elif a == "cont":
@@ -1170,21 +1174,25 @@ def run(ctx: Ctx) -> None:
     ]
     loop = steploop.new_loop()
     named_model: List[tuple] = []
+    repaired = (not DEFAULTS["NestedUncancel"]) and DEFAULTS["RearmChecksEof"]
     # ---- 1. bounded models (free environment, every interleaving)
     for (name, kw, inv, ideal) in free_models(ctx):
+        if repaired:
+            inv = INVARIANTS           # nothing to exclude: the full clauses hold on the repaired design
         res = run_tlc("ClientTimeouts", write_cfg("free", invariants=inv, **kw), workers=16,
                       timeout=ctx.pick(400, 3000), deadlock=False)
         ok = ctx.expect_model_ok(f"ClientTimeouts[as coded, named deviations excluded]({name})", res)
         ctx.log(f"model[as coded] {name}: {res.distinct} states ok={ok} {res.wall_s:.0f}s")
-        if ideal:
+        if ideal and not repaired:      # with repaired DEFAULTS the run above already is the repaired design
             res = run_tlc("ClientTimeouts", write_cfg("ideal", NestedUncancel=False, RearmChecksEof=True, **kw),
                           workers=16, timeout=ctx.pick(400, 3000), deadlock=False)
             ok = ctx.expect_model_ok(f"ClientTimeouts[repaired]({name})", res)
             ctx.log(f"model[repaired] {name}: {res.distinct} states ok={ok} {res.wall_s:.0f}s")
     # the as-coded model with the full invariants: TLC exhibits the two named deviations
     from engine.tlc import require_clean
-    for (clause, inv, kw) in [("CancelSwallowedNestedTimer", "CancelPropagates", dict(TOtotal=3)),
-                              ("ReadTimerRearmedAfterEof", "NoResidue", dict(TOread=3, BigChunk=True))]:
+    for (clause, inv, kw) in ([] if repaired else
+                              [("CancelSwallowedNestedTimer", "CancelPropagates", dict(TOtotal=3)),
+                               ("ReadTimerRearmedAfterEof", "NoResidue", dict(TOread=3, BigChunk=True))]):
         res = run_tlc("ClientTimeouts", write_cfg("dev", invariants=[inv], **kw), workers=8, timeout=300, deadlock=False)
         require_clean(res, f"ClientTimeouts[as coded, {inv}]")
         ctx.add_model(f"ClientTimeouts[as coded, full {inv}]", res, exhaustive=False)
@@ -1209,7 +1217,7 @@ def run(ctx: Ctx) -> None:
             has_cut = any(("partial" in l or '"data"' in l) for l in labels)
             variants = [(0, 0)]
             if has_cut:
-                variants += [(c, 0) for c in ctx.pick((1, 3, 4, 6), (1, 2, 3, 4, 5, 6))]
+                variants += [(c, 0) for c in ctx.pick((3, 6), (1, 2, 3, 4, 5, 6))]
             if mc["Body"] == "block":
                 variants += [(0, 1)]
             for (cut, bv) in variants:
@@ -1242,7 +1250,7 @@ def run(ctx: Ctx) -> None:
         mc = dict(DEFAULTS)
         mc.update(kw)
         behs, _ = simulate_behaviours("ClientTimeouts", write_cfg("sim", invariants=[], **mc),
-                                      num=ctx.pick(60, 600), depth=40, seed=ctx.seed, timeout=600)
+                                      num=ctx.pick(40, 600), depth=40, seed=ctx.seed, timeout=600)
         for k, b in enumerate(behs):
             pth = path_from_behaviour(b)
             has_q = any("qpart" in lab for lab, _, _ in pth["steps"])     # needs the chunked response script
@@ -1255,7 +1263,7 @@ def run(ctx: Ctx) -> None:
         judge(ctx, sims[i:i + 1500], "tlc-sim")
     # ---- 4. random fault schedules
     batch: List[dict] = []
-    for _ in range(ctx.pick(1200, 8000)):
+    for _ in range(ctx.pick(1000, 8000)):
         batch.append(random_exec(ctx, loop, ctx.rng))
         if len(batch) >= 1500:
             judge(ctx, batch, "random")
